@@ -3,6 +3,9 @@ package world
 import (
 	"bytes"
 	"fmt"
+	"os"
+	"path/filepath"
+	"sync"
 	"time"
 
 	abci "github.com/cometbft/cometbft/abci/types"
@@ -26,11 +29,33 @@ type Sim struct {
 	// OnReimport, if set, is called by Reimport with a function that replaces a node by a fresh application booted
 	// from the same export, keeping the node's fake EL (for replicas a property manages itself).
 	OnReimport func(reboot func(old *Node) (*Node, error)) error
+	tmpDirs    []string
 }
+
+var (
+	replicaDirMu  sync.Mutex
+	replicaDirSeq int
+)
 
 // AddReplica attaches a replica; it must be called before the first block.
 func (s *Sim) AddReplica() error {
-	n, err := NewNode(dbm.NewMemDB(), nil, 1+len(s.Replicas), s.Spec.ChainID)
+	var db dbm.DB = dbm.NewMemDB()
+	if ReplicasCold {
+		// a cold replica reloads its state from disk before every block: only a real database makes that different
+		// from the primary's warm in-memory state (a MemDB hands out its own buffers)
+		replicaDirMu.Lock()
+		replicaDirSeq++
+		dir := filepath.Join(WorkDir(), "db", fmt.Sprintf("%d-cold-%d", os.Getpid(), replicaDirSeq))
+		replicaDirMu.Unlock()
+		_ = os.MkdirAll(dir, 0o755)
+		ldb, err := dbm.NewGoLevelDB("app", dir, nil)
+		if err != nil {
+			return err
+		}
+		db = ldb
+		s.tmpDirs = append(s.tmpDirs, dir)
+	}
+	n, err := NewNode(db, nil, 1+len(s.Replicas), s.Spec.ChainID)
 	if err != nil {
 		return err
 	}
@@ -142,6 +167,12 @@ func (s *Sim) Close() {
 	}
 	for _, r := range s.Replicas {
 		r.Close()
+		if c, ok := r.DB.(interface{ Close() error }); ok && len(s.tmpDirs) > 0 {
+			_ = c.Close()
+		}
+	}
+	for _, d := range s.tmpDirs {
+		_ = os.RemoveAll(d)
 	}
 }
 
